@@ -3,21 +3,44 @@ import os
 import sys
 
 HERE = os.path.dirname(os.path.dirname(os.path.abspath(__file__)))
+REPO = os.environ.get('HEPH_REPO', '/repo')
 sys.path.insert(0, HERE)
 
 ID = 'C04'
-LEVEL = 'exploration'
-SIDECARS = []
-FUNCTIONS = []
-TRUSTED = []
-ASSUMPTIONS = [
-    'bounded stand-in only (labelled bounded, nothing is counted as proved): the real mutation is run on hand-built and '
-    'generated programs in the four languages and judged by an independent oracle written from the property statement '
-    '(structural before/after diff of every node attribute, three-valued local type inference, declarative subtyping with '
-    'assignment conversions over the program\'s class table, javac where a Java translation exists)',
+LEVEL = 'proof'
+SIDECARS = ['types_sub', 'types_ctor', 'mutations']
+FUNCTIONS = [
+    'src.transformations.type_overwriting.TypeOverwriting.visit_func_decl',
 ]
-NOT_UNDER_CONTRACT = ['src.transformations.type_erasure', 'src.transformations.type_overwriting',
-                      'src.analysis.type_dependency_analysis']
+TRUSTED = [
+    'slice mode (DESIGN 2.7) for TypeOverwriting.visit_func_decl: statements outside the subset are havocked (the branch that '
+    'overwrites a type argument of an instantiation is abstracted as a whole); obligations sit at the attribute stores',
+    'write census: syntactic analysis of the real AST of type_overwriting.py (see C03)',
+    'find_irrelevant_type is a query that does not modify the program (its meaning is C09, bounded)',
+    'attribute reads, isinstance, len, getattr, str have no side effects',
+]
+ASSUMPTIONS = [
+    'proved: every declared type the mutation writes (var_type / ret_type / inferred_type) is the non-None result of the '
+    'irrelevant-type search and goes into the declaration of the selected candidate; an injection is reported '
+    '(error_injected set, is_transformed True) only on a path on which the declared type of that candidate -- var_type for '
+    'a variable, ret_type otherwise -- and its recorded type were overwritten with that result; the module writes nothing '
+    'else into the program (census). NOT proved (bounded): exactly one declared type differs when a type argument of an '
+    'instantiation is overwritten, unrelatedness of the new type (C09), the content of the message, that the translation '
+    'changes, and that a correct checker must reject',
+]
+NOT_UNDER_CONTRACT = ['TypeOverwriting._add_candidate_method, visit_program (candidate selection: bounded)',
+                      'src.ir.type_utils.find_irrelevant_type (C09: bounded)']
+
+
+def custom_proof(tier):
+    from pyvc import frontend, statecheck
+    fe = frontend.Frontend(REPO)
+    mut = statecheck.ir_mutator_names(fe)
+    out = statecheck.store_census(fe, 'src.transformations.type_overwriting',
+                                  {'var_type', 'ret_type', 'inferred_type', 'type_args'}, allowed_roots=('type_graph',))
+    out += statecheck.mutator_call_census(fe, 'src.transformations.type_overwriting', set(), mut)
+    return out
+
 
 from props import C04_bounded as _b   # noqa: E402
 bounded = _b.bounded
